@@ -20,6 +20,7 @@ run_one() { # name prop patch expect outfile
   elif echo "$res" | grep -qE "^(BROKEN|BUILD-FAILED)"; then verdict="check-broken"
   else verdict="missed"; fi
   fps="$(echo "$res" | grep "^VIOLATION" | sed -E 's/.*replays\/[^/]*\/(.*)\.json/\1/' | head -3 | tr '\n' ' ')"
+  if [ -f "$out" ]; then grep -v "^$name	" "$out" > "$out.tmp"; mv "$out.tmp" "$out"; fi
   printf "%s\t%s\t%s\t%s\t%s\n" "$name" "$prop" "$expect" "$verdict" "$fps" | tee -a "$out"
 }
 head_of_repo="$(git -C /repo rev-parse --short HEAD)"
@@ -33,9 +34,13 @@ fi
 if [ "$GROUP" = reverts ] || [ "$GROUP" = all ]; then
   out=mutants/RESULTS-reverts.tsv; [ "$RE" = . ] && echo "# repo $head_of_repo, quick tier; each fix commit reverted on a scratch copy; name property expected verdict first-fingerprints" > $out
   grep '^fixed:' KNOWN_FINDINGS.txt | sed -E 's/^fixed: property=(C[0-9]+) ([0-9a-f]+) .*/\1 \2/' | while read -r prop commit; do
-    echo "revert-$commit" | grep -qE "$RE" || continue
-    git -C /repo diff "$commit" "$commit^" > "$TMP/rev-$commit.diff"
-    run_one "revert-$commit" "$prop" "$TMP/rev-$commit.diff" caught "$out"
+    echo "revert-$commit-$prop" | grep -qE "$RE" || continue
+    if [ -f "mutants/reverts/revert-$commit.diff" ]; then
+      cp "mutants/reverts/revert-$commit.diff" "$TMP/rev-$commit.diff"   # later commits touched the same lines: reverted by hand
+    else
+      git -C /repo diff "$commit" "$commit^" > "$TMP/rev-$commit.diff"
+    fi
+    run_one "revert-$commit-$prop" "$prop" "$TMP/rev-$commit.diff" caught "$out"
   done
 fi
 if [ "$GROUP" = seeded ] || [ "$GROUP" = all ]; then
